@@ -460,8 +460,8 @@ func checkV2Fields(ldn uint32, ts uint64, clock, ld uint8, node [6]byte, viaSett
 			wsec, wnsec := refInstant(ts)
 			u.SetTime(time.Unix(wsec, wnsec))
 			ev(1)
-			if u.Time != ts {
-				r.Violation("uuid_v2.SetTime:value", fmt.Sprintf("SetTime(unix %d.%09d): Time=%d want %d", wsec, wnsec, u.Time, ts), cs)
+			if u.Time != ts && u.Time != ts28 { // keeping the whole reading or only the bits a v2 UUID carries
+				r.Violation("uuid_v2.SetTime:value", fmt.Sprintf("SetTime(unix %d.%09d): Time=%d want %d (or its upper 28 bits %d)", wsec, wnsec, u.Time, ts, ts28), cs)
 				u.Time = ts
 			}
 		} else {
